@@ -14,7 +14,14 @@ import (
 	"time"
 )
 
-const verifRoot = "/verif"
+// verifRoot is /verif; VCHECK_ROOT points background runs at a private snapshot of the
+// framework (run.sh snapshot mode) so that /verif can be edited while they work.
+var verifRoot = func() string {
+	if r := os.Getenv("VCHECK_ROOT"); r != "" {
+		return r
+	}
+	return "/verif"
+}()
 
 // Violation is one property violation on one explored case.
 type Violation struct {
